@@ -124,7 +124,11 @@ class PartitionLog(object):
                 wts = None
                 if magic == 1:
                     wts = b.wrapper_ts if b.wrapper_ts is not None else max([r[2] or 0 for r in b.records] + [0])
-                entries.append(R.encode_wrapper(inner, b.offsets[-1], magic=magic, codec=b.codec, timestamp=wts))
+                # every third stored batch was compressed as a multi-member gzip stream (RFC 1952 2.2: a reader
+                # treats the members as one)
+                nmem = 2 if (b.batch_id % 3 == 0 and len(inner) >= 2) else 1
+                entries.append(R.encode_wrapper(inner, b.offsets[-1], magic=magic, codec=b.codec, timestamp=wts,
+                                                members=nmem))
         return R.encode_message_set(entries)
 
 
